@@ -1,13 +1,27 @@
 #!/bin/sh
 # rustc wrapper of the simulator workspace: the PARALLEL shadow build of walrus (crate walrus_par) is compiled
-# with LLVM's SanitizerCoverage trace-pc-guard instrumentation, i.e. a call to __sanitizer_cov_trace_pc_guard at
-# every control-flow edge.  The harness defines that symbol as a cooperative scheduling point, which gives the
-# simulated scheduler preemption at basic-block granularity INSIDE the per-function parse / emit closures
-# without touching /repo.  Every other crate (walrus_ser, the harness, dependencies) is compiled unchanged.
+# with two LLVM instrumentations, both of which only insert calls to symbols the harness defines (simrt.rs):
+#  * SanitizerCoverage trace-pc-guard: a call to __sanitizer_cov_trace_pc_guard at every control-flow edge;
+#  * ThreadSanitizer's pass restricted to ATOMIC operations (no memory-access, function-entry or memintrinsic
+#    instrumentation, and the tsan runtime is NOT linked): every atomic load / store / rmw / cmpxchg / fence
+#    executed by code generated in walrus_par -- including std::sync and dependency generics instantiated there --
+#    becomes a call __tsan_atomicN_*(...), which the harness implements as "scheduling point, then the operation".
+# Both give the simulated scheduler preemption INSIDE the per-function parse / emit closures without touching
+# /repo.  walrus is 100% safe Rust, so tasks can only communicate through synchronisation operations; switching
+# right before each of them is the classic complete reduction for controlled concurrency testing.
+# -Zsanitizer needs RUSTC_BOOTSTRAP on the stable toolchain; it is set for this one crate only.
+# Every other crate (walrus_ser, the harness, dependencies) is compiled unchanged.
 rustc="$1"; shift
 case " $* " in
   *" --crate-name walrus_par "*)
-    exec "$rustc" "$@" -Cpasses=sancov-module -Cllvm-args=-sanitizer-coverage-level=3 -Cllvm-args=-sanitizer-coverage-trace-pc-guard
+    RUSTC_BOOTSTRAP=1 exec "$rustc" "$@" -Cpasses=sancov-module -Cllvm-args=-sanitizer-coverage-level=3 -Cllvm-args=-sanitizer-coverage-trace-pc-guard \
+      -Zsanitizer=thread -Cunsafe-allow-abi-mismatch=sanitizer \
+      -Cllvm-args=-tsan-instrument-memory-accesses=0 -Cllvm-args=-tsan-instrument-func-entry-exit=0 -Cllvm-args=-tsan-instrument-memintrinsics=0
+    ;;
+  *" --crate-name walrus_dst "*)
+    # the harness links the instrumented crate: acknowledge the (purely nominal: no runtime, no ABI change
+    # with memory-access instrumentation off) sanitizer mismatch
+    exec "$rustc" "$@" -Cunsafe-allow-abi-mismatch=sanitizer
     ;;
   *)
     exec "$rustc" "$@"
